@@ -155,11 +155,13 @@ PARENTS = [
     [["arg", "p", ["popt"], dict(nargs="?", default="pd0")], ["arg", "p", ["--preq"], dict(required=True)]],
     # parser-level defaults on dests that are ALSO declared: before the declaration (the action's own default wins in argparse),
     # after it (set_defaults rewrites the action), and for an action-less dest
-    [["defaults", dict(plevel=7, pextra="e1")], ["arg", "p", ["--plevel"], dict(type="int", default=1)],
+    [["defaults", dict(plevel=7, pextra="e1", pcommon="c5")], ["arg", "p", ["--plevel"], dict(type="int", default=1)],
      ["arg", "p", ["-w", "--pverb"], dict(action="count", default=0)], ["arg", "p", ["--pafter"], dict(default="a0")],
      ["defaults", dict(pafter="a1")]],
     # a second parent that only carries parser-level defaults for dests the previous one declares
-    [["defaults", dict(pverb=5, plevel=9)], ["arg", "p", ["--ptag"], dict(default="t0")]],
+    [["defaults", dict(pverb=5, plevel=9, pcommon="c6")], ["arg", "p", ["--ptag"], dict(default="t0")]],
+    # a third one: the same action-less dest again (argparse: the LAST parent's value wins), and a dest another parent declares
+    [["arg", "p", ["--pseven"], dict(action="store_true")], ["defaults", dict(pcommon="c7", pextra="e7", pafter="a7")]],
 ]
 PARENT_TOKENS = [
     ([["--pp", "4"], ["--pq"], ["-q"], ["--pp=5"]], [["--pp", "x"], ["--pp"]]),
@@ -169,6 +171,7 @@ PARENT_TOKENS = [
     ([["--preq", "r"], ["--preq", "r"], ["popv", "--preq", "r2"]], [["--preq"]]),
     ([["--plevel", "3"], ["-ww"], ["--pafter", "z"], [], []], [["--plevel", "x"]]),
     ([["--ptag", "mine"], [], []], [["--ptag"]]),
+    ([["--pseven"], [], []], [["--pseven=1"]]),
 ]
 JUNK = [["--unknown"], ["--unknown", "u"], ["-z"], ["stray"], ["--unk=3"], ["-5"], ["--"], ["-h"], ["--help"], ["--n"], [""], ["a b"]]
 
@@ -260,11 +263,11 @@ def gen_case(rng, force=None):
         decls.insert(at if rng.random() < 0.7 else at + 1, ["defaults", dict(a=dict(x=5))])
     parents = []
     if rng.random() < force.get("p_parents", 0.14):
-        ids = rng.sample([0, 2, 3, 5, 6] if merged else range(len(PARENTS)), rng.choice([1, 1, 2]))
+        ids = rng.sample([0, 2, 3, 5, 6, 7] if merged else range(len(PARENTS)), rng.choice([1, 1, 2]))
         if 1 in ids and 4 in ids:
             ids.remove(4)
         if rng.random() < 0.25:
-            ids = [5, 6] if rng.random() < 0.7 else [6, 5]     # two parents touching the same dests, both orders
+            ids = rng.sample([5, 6, 7], rng.choice([2, 2, 3]))   # parents touching the same dests, any order
         for i in ids:
             parents.append(dict(cls=rng.choice(["std", "sp"]), decls=PARENTS[i], id=i))
             good += [(x, "parent") for x in PARENT_TOKENS[i][0]]
@@ -335,7 +338,7 @@ def gen(tier, seed):
                     cases.append(dict(forest=fname, parser_kw={}, decls=[["arg", "p", ["cpos"], dict(nargs="?")], ["dc"]],
                                       parents=[dict(cls=cls, decls=PARENTS[i], id=i)], argv=list(toks), mode="known"))
     # two parents touching the same dests (both orders), the options absent / present
-    for order in ([5, 6], [6, 5]):
+    for order in ([5, 6], [6, 5], [6, 7], [7, 6], [5, 7], [7, 5], [5, 6, 7], [7, 6, 5], [6, 7, 5]):
         for cls in ("std", "sp"):
             for argv in ([], ["--plevel", "3"], ["-w", "--x", "2"], ["--ptag", "mine", "--pafter", "z"]):
                 cases.append(dict(forest="single", parser_kw={}, decls=[["arg", "p", ["cpos"], dict(nargs="?")], ["dc"]],
